@@ -2,15 +2,19 @@
 C09 — formatting is idempotent and preserves the program.
 PROPERTY THEOREMS ONLY (lemmas: Proofs/Format.lean; model: Martian/Format.lean).
 
-Proved for all inputs: the call reordering (`topoSort`) is a permutation for
-every dependency relation, and is the identity on an order that already
-respects the dependencies (the fixed-point half of idempotence).  The string
-printer/lexer round trip is proved only on a finite witness set here
-(`quote_unquote_samples_partial`); the statement for all valid UTF-8 strings
-is kept below as a comment and is checked by differential execution.
+Proved for all inputs: the call reordering (`topoSort`) is a permutation; under
+the (decidable) hypotheses "closed relation is acyclic and transitive on the
+calls" its result is in dependency order and a fixed point of the loop; the
+loop is the identity on any dependency order; and the string printer/lexer
+round trip `unquoteBytes (quoteString s) = some s` for every valid UTF-8 `s`.
+Not proved: that `closedTable` always yields a transitive relation (evaluated per
+generated graph by the driver, monitored on the real map), and the
+value-expression printer/parser round trip.
 -/
 import Martian.Format
 import Proofs.Format
+import Proofs.FormatTopo
+import Proofs.FormatQuote
 
 namespace Props.C09
 open Martian.Format
@@ -28,34 +32,74 @@ theorem topoSort_stable (d : Dep) (f : Nat) (l : List Nat) (h : sortedFrom d l =
     loop d f l 0 = l :=
   loop_sorted d f l 0 (by simpa using h)
 
-/-- non-vacuity: a sorted order exists and the sort reaches one on a graph
-where three of four calls must move -/
-example : sortedFrom (depOfEdges [(0, 1), (1, 3), (2, 3)]) [3, 2, 1, 0] = true ∧
-    topoSort 4 [(0, 1), (1, 3), (2, 3)] = [3, 2, 1, 0] := by decide
+/-- The closure `topoSort` computes before sorting contains the direct
+dependencies. -/
+theorem closedDeps_contains_edges (n : Nat) (edges : List (Nat × Nat)) (a b : Nat)
+    (ha : a < n) (hb : b < n) (h : (a, b) ∈ edges) : closedDeps n edges a b = true :=
+  closeTab_mono n n _ a b ha hb (by rw [ofTable_tabulate n _ a b ha hb]; simp [depOfEdges, h])
 
-/-- instances of `respects dependencies` + `idempotent` (the general statements
-are monitored on the real code for every generated pipeline, not proved):
-the result is in dependency order, hence (by `topoSort_stable`) a fixed point -/
-theorem topoSort_sorted_samples_partial :
-    sortedFrom (closeN 4 4 (depOfEdges [(0, 1), (1, 3), (2, 3)])) (topoSort 4 [(0, 1), (1, 3), (2, 3)]) = true ∧
-    sortedFrom (closeN 5 5 (depOfEdges [(0, 4), (4, 2), (1, 0), (3, 1)])) (topoSort 5 [(0, 4), (4, 2), (1, 0), (3, 1)]) = true ∧
-    topoSort 3 [(0, 1), (1, 0)] = [0, 1, 2] := by decide
+/-- **Respects dependencies.**  When the closed dependency relation has no
+cycle (otherwise the Go code returns an error and leaves the order alone) and
+is transitive on the calls (what `addNextDeps` is there to establish; a
+decidable hypothesis, evaluated by the driver for every generated graph and
+monitored on the real map), no call in the result is followed by a call it
+depends on — with `topoSort_perm`: every call comes after all its
+dependencies.  The fuel `n² + n + 1` of the model is never exhausted (the loop
+needs at most `2n` iterations). -/
+theorem topoSort_respects_deps (n : Nat) (edges : List (Nat × Nat))
+    (hcyc : hasCycle n (closedDeps n edges) = false)
+    (htr : transOn (List.range n) (closedDeps n edges) = true)
+    (a b : Nat) (ha : a < n) (hb : b < n) (hab : (a, b) ∈ edges)
+    (A B : List Nat) (hl : topoSort n edges = A ++ a :: B) : b ∉ B :=
+  sorted_no_later_dep _ _ A B a b (topoSort_sorted n edges hcyc htr) hl
+    (closedDeps_contains_edges n edges a b ha hb hab)
 
-/- Full statement kept for the record (checked by correspondence on every run,
-   harness/c09.go c09Strings, and NOT proved here):
-     theorem unquote_quote (s : Bytes) (h : validUtf8 s = true) :
-       Martian.Lexer.unquoteBytes (quoteString s) = some s
-   It is false without the hypothesis (F6b), see `invalid_byte_not_preserved`. -/
+/-- the same for transitive dependencies: the result is in dependency order
+for the whole closed relation -/
+theorem topoSort_sorted_closed (n : Nat) (edges : List (Nat × Nat))
+    (hcyc : hasCycle n (closedDeps n edges) = false)
+    (htr : transOn (List.range n) (closedDeps n edges) = true) :
+    sortedFrom (closedDeps n edges) (topoSort n edges) = true :=
+  topoSort_sorted n edges hcyc htr
 
-/-- `unquoteBytes (quoteString s) = some s` on a witness set covering every
-branch of `quoteString`: plain, `\"`, `\\`, `\b \f \n \r \t`, `\u00XX`, DEL,
-2/3/4-byte runes, U+2028, U+2029 and their neighbours. -/
-theorem quote_unquote_samples_partial :
-    ([[], [0x61], [0x22], [0x5C], [0x08], [0x0C], [0x0A], [0x0D], [0x09], [0x00], [0x01], [0x1F], [0x7F],
-      [0xC3, 0xA9], [0xDF, 0xBF], [0xE0, 0xA0, 0x80], [0xE2, 0x80, 0xA7], [0xE2, 0x80, 0xA8], [0xE2, 0x80, 0xA9],
-      [0xE2, 0x80, 0xAA], [0xEF, 0xBF, 0xBD], [0xF0, 0x9F, 0x98, 0x80], [0xF4, 0x8F, 0xBF, 0xBF],
-      [0x61, 0x22, 0x5C, 0x0A, 0x01, 0xE2, 0x80, 0xA8, 0xC3, 0xA9, 0x5C, 0x6E, 0x5C, 0x75]] : List (List UInt8)).all
-      (fun s => Martian.Lexer.unquoteBytes (quoteString s) == some s) = true := by decide
+/-- **Idempotent.**  Running the shift loop again on the result, with any
+fuel, returns it unchanged. -/
+theorem topoSort_idem (n : Nat) (edges : List (Nat × Nat)) (f : Nat)
+    (hcyc : hasCycle n (closedDeps n edges) = false)
+    (htr : transOn (List.range n) (closedDeps n edges) = true) :
+    loop (closedDeps n edges) f (topoSort n edges) 0 = topoSort n edges :=
+  topoSort_stable _ f _ (topoSort_sorted n edges hcyc htr)
+
+/-- the general loop statement: any call list, any relation that is transitive
+and irreflexive on it, fuel above twice the length -/
+theorem loop_sorts (d : Dep) (l : List Nat) (f : Nat)
+    (htr : transOn l d = true) (hirr : irreflOn l d = true) (hf : 2 * l.length < f) :
+    sortedFrom d (loop d f l 0) = true :=
+  loop_sorted_of_closed d l f htr hirr hf
+
+/-- non-vacuity: the hypotheses hold on a graph where three of four calls must
+move, and on a 5-call graph with a forward chain -/
+example : hasCycle 4 (closedDeps 4 [(0, 1), (1, 3), (2, 3)]) = false ∧
+    transOn (List.range 4) (closedDeps 4 [(0, 1), (1, 3), (2, 3)]) = true ∧
+    topoSort 4 [(0, 1), (1, 3), (2, 3)] = [3, 2, 1, 0] ∧
+    hasCycle 5 (closedDeps 5 [(0, 4), (4, 2), (1, 0), (3, 1)]) = false ∧
+    transOn (List.range 5) (closedDeps 5 [(0, 4), (4, 2), (1, 0), (3, 1)]) = true := by decide
+
+/-- a dependency cycle is detected and leaves the order unchanged -/
+theorem topoSort_cycle_sample :
+    hasCycle 3 (closedDeps 3 [(0, 1), (1, 0)]) = true ∧ topoSort 3 [(0, 1), (1, 0)] = [0, 1, 2] := by decide
+
+/-- **String round trip.**  For every valid UTF-8 byte string the lexer's
+`unquoteBytes` returns exactly what `quoteString` was given (every escape
+class of `quoteString`: `\\ \" \b \f \n \r \t \u00XX`, DEL and printable
+ASCII verbatim, multi-byte runes verbatim, U+2028/U+2029 escaped). -/
+theorem unquote_quote (s : List UInt8) (h : Martian.ShellQuote.validUtf8 s = true) :
+    Martian.Lexer.unquoteBytes (quoteString s) = some s :=
+  unquote_quoteString s h
+
+/-- non-vacuity: a valid string with every class of character -/
+example : Martian.ShellQuote.validUtf8
+    [0x61, 0x22, 0x5C, 0x0A, 0x01, 0x7F, 0xE2, 0x80, 0xA8, 0xC3, 0xA9, 0xF0, 0x9F, 0x98, 0x80] = true := by decide
 
 /-- Negative witness F6b: a byte that is not valid UTF-8 is replaced by
 U+FFFD. -/
